@@ -96,3 +96,70 @@ func VH_process_orphans() {
 	vAssert(cnt == len(b.orphans), "both orphan maps hold the same blocks")
 	vReach("end")
 }
+
+var vInvalidOrphans map[chainhash.Hash]bool
+
+// acceptance fails with a rule error for the blocks the harness designates as invalid
+func vStubMaybeAcceptSome(b *BlockChain, block *btcutil.Block, flags BehaviorFlags) (bool, error) {
+	if vInvalidOrphans[*block.Hash()] {
+		return false, ruleError(ErrBadCoinbaseValue, "stub: invalid block")
+	}
+	vAccepted = append(vAccepted, block)
+	return true, nil
+}
+
+// C02(6'): an invalid orphan does not hide valid ones: some orphans (arbitrary subset) fail acceptance with a rule
+// error when their turn comes; every orphan that descends from the accepted block through valid orphans only is
+// still accepted (whatever the order the siblings sit in the pool), so that the outcome does not depend on the
+// delivery order; descendants of an invalid orphan stay orphans.
+//verif:opts reach=end noverride=accept.go:BlockChain.maybeAcceptBlock:vStubMaybeAcceptSome
+func VH_process_orphans_with_invalid() {
+	vAccepted = nil
+	vInvalidOrphans = make(map[chainhash.Hash]bool)
+	b := &BlockChain{orphans: make(map[chainhash.Hash]*orphanBlock), prevOrphans: make(map[chainhash.Hash][]*orphanBlock)}
+	var pHash chainhash.Hash
+	pHash[0] = 0xaa
+	n := 2 + vNondetLen("orphans", 1+vTier())
+	blocks := make([]*btcutil.Block, n)
+	parent := make([]int, n) // -1: P, j: orphan j
+	invalid := make([]bool, n)
+	for i := 0; i < n; i++ {
+		c := vNondetLen("parent", i) // 0: P, 1+j: orphan j (j < i)
+		prev := pHash
+		parent[i] = -1
+		if c >= 1 {
+			prev, parent[i] = *blocks[c-1].Hash(), c-1
+		}
+		blocks[i] = vOrphanBlock(prev, uint32(i))
+		invalid[i] = vNondetBool("invalid")
+		if invalid[i] {
+			vInvalidOrphans[*blocks[i].Hash()] = true
+		}
+	}
+	rot := vNondetLen("rotation", n-1)
+	for k := 0; k < n; k++ {
+		blk := blocks[(k+rot)%n]
+		ob := &orphanBlock{block: blk}
+		b.orphans[*blk.Hash()] = ob
+		prev := blk.MsgBlock().Header.PrevBlock
+		b.prevOrphans[prev] = append(b.prevOrphans[prev], ob)
+	}
+	_ = b.processOrphans(&pHash, BFNone)
+	// reference: an orphan is connectable iff it is valid and its parent is P or a connectable orphan
+	ok := make([]bool, n)
+	for i := 0; i < n; i++ {
+		ok[i] = !invalid[i] && (parent[i] == -1 || ok[parent[i]])
+	}
+	for i := 0; i < n; i++ {
+		accepted := false
+		for _, blk := range vAccepted {
+			accepted = accepted || blk == blocks[i]
+		}
+		vAssert(accepted == ok[i], "exactly the orphans connectable through valid blocks are accepted, whatever else is invalid")
+		_, inPool := b.orphans[*blocks[i].Hash()]
+		if ok[i] {
+			vAssert(!inPool, "accepted orphans leave the pool")
+		}
+	}
+	vReach("end")
+}
